@@ -333,6 +333,10 @@ impl<'a> LoweringManager<'a> {
           let call = if vec_returns_element {
             if return_type.is_int32() {
               wasm::InlineInstruction::DirectCall(mir::FunctionName::UNWRAP_I31, vec![call])
+            } else if matches!(return_type, lir::Type::AnyPointer) {
+              // An element type that is itself (ref eq), e.g. an enum with int31 variants:
+              // there is nothing to downcast to.
+              call
             } else {
               wasm::InlineInstruction::Cast {
                 pointer_type: return_type.clone(),
